@@ -78,6 +78,12 @@ def run(ctx):
                   a=dict(writes=[tot], shutdown=True), b=dict(writes=[tot], shutdown=True), a2b=dict(), b2a=dict())
         sc[lossy] = dict(rules=[dict(kind='data', nth=n, act='drop') for n in sorted(rng.sample(range(2, 30), 3))])
         scs.append(sc)
+    # a SCALED receive window closes with 1 .. 2^scale - 1 bytes of buffer left (zero on the wire although the buffer is not
+    # full), then the application reads: "the advertised window closes and reopens once it reads again"
+    for k, (rb, first) in enumerate([(131072, 7), (262144, 1), (131072, 13), (1 << 20, 7)][:ctx.pick(2, 4)]):
+        scs.append(dict(v=4, mtu=1500, sack=(k % 2 == 0), cc='', deadline_ms=30000, seed=7300 + k, flags={}, tag='scaled-zero-window-%d-rb%d' % (k, rb),
+                        a=dict(writes=[first, rb + 50000], shutdown=True), b=dict(writes=[], shutdown=True, rcvbuf=rb, read_start_ms=600),
+                        a2b=dict(), b2a=dict()))
     # asymmetric link MTUs: the peer's announced MSS (its MTU - 40) is the binding limit, not the sender's own MTU
     for k in range(ctx.pick(6, 24)):
         big, small = rng.choice([1500, 1500, 9000]), [100, 300, 576, 200, 1000, 68][k % 6]
